@@ -26,6 +26,18 @@ type Sched struct {
 	Prefixes []string
 	state    uint64
 
+	// Long delays (PCT-like, depth 1): with probability LongProb / 65536 per
+	// site visit - at most once per step - the goroutine is held back for
+	// LongSpin yields, i.e. every other goroutine can run through many of its own
+	// synchronisation points (a whole request, a publish and its delivery) before
+	// this one executes its next one. Ordinary yields only let the others advance
+	// a point or two, which never opens a window that needs several things to
+	// happen inside it.
+	LongProb uint32
+	LongSpin int
+	longUsed bool
+	Longs    uint64
+
 	// Steering rules: a goroutine arriving at Hold yields until some goroutine
 	// has passed Until (count increased since arrival) or MaxSpin yields.
 	Rules []*Rule
@@ -76,7 +88,7 @@ func Cur() *Sched { s, _ := cur.Load().(*Sched); return s }
 // Reseed sets the yield stream position (driver: once per step).
 //
 //go:norace
-func (s *Sched) Reseed(v uint64) { s.state = v }
+func (s *Sched) Reseed(v uint64) { s.state = v; s.longUsed = false }
 
 //go:norace
 func (s *Sched) next() uint64 {
@@ -193,6 +205,19 @@ func Y(site string) {
 			s.streakT = time.Now()
 		}
 		s.streak = 0
+	}
+	if s.LongProb > 0 && !s.longUsed {
+		if v := s.next(); uint32(v&0xffff) < s.LongProb {
+			s.longUsed = true
+			s.Longs++
+			for i := 0; i < s.LongSpin; i++ {
+				runtime.VerifYield()
+				if Cur() != s {
+					return
+				}
+			}
+			return
+		}
 	}
 	if s.Prob == 0 {
 		return
